@@ -57,6 +57,10 @@ static uint64_t g_cbInst = 0, g_cbMsg = 0;
 static int headerCallback(KSI_Header *hdr) { KSI_CTX *ctx = KSI_Header_getCtx(hdr); KSI_Integer *a = nullptr, *b = nullptr; KSI_Integer_new(ctx, g_cbInst, &a); KSI_Integer_new(ctx, g_cbMsg, &b); KSI_Header_setInstanceId(hdr, a); KSI_Header_setMessageId(hdr, b); return KSI_OK; }
 static void setupCtx(KSI_CTX *ctx, const Scn &s) {
     if (s.hdrCb) { g_cbInst = s.inst; g_cbMsg = s.msg; KSI_CTX_setRequestHeaderCallback(ctx, headerCallback); }
+    // credentials that REPLACE earlier ones on the same context (derived from the key, no additional draw): the earlier key is longer (the new one is a proper
+    // prefix of it), shorter (a proper prefix of the new one) or unrelated; the requests must be MACed, and the responses checked, with the new key only
+    { unsigned rel = s.key.empty() ? 0 : (unsigned)(s.key.size() + (unsigned char)s.key[0]) % 4; std::string oldKey = rel == 1 ? s.key + "-2024-rotation" : rel == 2 ? s.key.substr(0, s.key.size() / 2) : rel == 3 ? std::string(s.key.size(), 'q') : std::string(); std::string oldLogin = rel == 1 ? s.login + "-old" : s.login;
+      if (rel && !oldKey.empty()) { KSI_CTX_setAggregator(ctx, "ksi+tcp://agg.example.test:3333", oldLogin.c_str(), oldKey.c_str()); KSI_CTX_setExtender(ctx, "ksi+tcp://ext.example.test:4444", oldLogin.c_str(), oldKey.c_str()); stats().count(rel == 1 ? "history:credentials-replaced:new-key-is-prefix-of-old" : rel == 2 ? "history:credentials-replaced:old-key-is-prefix-of-new" : "history:credentials-replaced:unrelated"); } }
     KSI_CTX_setAggregator(ctx, "ksi+tcp://agg.example.test:3333", s.login.c_str(), s.key.c_str()); KSI_CTX_setExtender(ctx, "ksi+tcp://ext.example.test:4444", s.login.c_str(), s.key.c_str());
     KSI_CTX_setOption(ctx, KSI_OPT_AGGR_PDU_VER, (void *)(size_t)s.ver); KSI_CTX_setOption(ctx, KSI_OPT_EXT_PDU_VER, (void *)(size_t)s.ver); bool aggrKind = s.kind == K_AGGR || s.kind == K_AGGR_CONF; KSI_CTX_setOption(ctx, KSI_OPT_AGGR_HMAC_ALGORITHM, (void *)(size_t)(aggrKind ? s.macAlg : s.otherAlg)); KSI_CTX_setOption(ctx, KSI_OPT_EXT_HMAC_ALGORITHM, (void *)(size_t)(aggrKind ? s.otherAlg : s.macAlg));
 }
